@@ -17,4 +17,12 @@ def queries(tier):
                     unwind_default=17,
                     bounds="source value: all 2^w values of %s; target in {c,b,y,n,q,i,u,x,t,l}" % ty,
                     outside="vector targets"))
+    TXT_UNITS = ["mptcore/convert/%s.c" % f for f in ("convert_string", "convert_number", "convert_int", "cdouble", "cfloat", "cldouble", "convert_key")] + [
+        "mptcore/types/type_int.c"]
+    for fmt in "bynqiuxtl":
+        qs.append(Q("text2int_" + fmt, "C07/text2int.c", units=TXT_UNITS,
+                    harness_defines={"FMT": "'%s'" % fmt},
+                    unwind_default=50,
+                    bounds="any numeral: sign, magnitude 0..2^64-1 or beyond 64 bits, 0..2 leading blanks, 1..22 characters; target '%s'; C library parser = ISO C contract stub" % fmt,
+                    outside="bases other than auto-detected; locale-specific parsing; the digits themselves are abstracted by the contract"))
     return qs
